@@ -8,6 +8,7 @@ logs as Expr terms evaluated with mpmath) computes
 and for full batches N*ELBO(q), the exact log marginal likelihood, the collapsed (Titsias) bound
 and the optimal q*(u).  Compared with mll(model(x_batch), y_batch) in training mode.
 Bound statements, the NGD fixed point and gradients are labelled TESTS evaluated on the real code."""
+import itertools
 import json
 import math
 import random
@@ -19,7 +20,6 @@ import torch
 import gpytorch
 from gpytorch import settings as gs
 from gpytorch import variational as V
-from harness.drivers import C14 as D14
 from harness.drivers.C02 import prior_logpdf, make_prior, gen_prior, CLOSURE_T, CLOSURE_M, ConstLoss
 from harness.lib import common as C
 
@@ -33,9 +33,205 @@ RUN_DEF = ("Inductive ccase := CE (c : elbo_case) | CB (c : nat * nat * list (li
            "Definition run (c : ccase) : list Z := match c with CE x => run_elbo x | CB x => run_bound x end.")
 
 torch.set_default_dtype(torch.float64)
+
+
+# --------------------------------------------------------------------------- SVGP construction helpers
+# (copied from the C14 driver so that this check does not depend on another property's file)
+
+class _H:
+    """namespace of the helpers below (kept under the name D14 used throughout this file)"""
+
+
+KBITS = 16                 # kernel matrices are rounded to a 2^-16 grid (see DyadicKernel), except in the gradient family
+JIT_DY = 2.0 ** -20        # explicit jitter_val (a dyadic close to the 1e-6 default)
+DISTS14 = ["cholesky", "meanfield", "delta", "natural", "trilnatural"]
+KIND = {d: i for i, d in enumerate(DISTS14)}
+MEANS = ["zero", "constant", "linear"]
+
+
+class DyadicKernel(gpytorch.kernels.Kernel):
+    """k(x, x') rounded entrywise to a 2^-KBITS grid.  The strategies are generic in the kernel; rounding keeps
+    the exact-rational model cheap (operands of ~100 instead of ~1000 bits) so that many more configurations
+    fit in the budget.  Raw kernels are used in the `raw` cases."""
+
+    def __init__(self, base):
+        super().__init__()
+        self.base_kernel = base
+
+    @property
+    def batch_shape(self):
+        return self.base_kernel.batch_shape
+
+    def forward(self, x1, x2, diag=False, **params):
+        from linear_operator import to_dense
+        k = to_dense(self.base_kernel.forward(x1, x2, diag=diag, **params))
+        return torch.round(k * 2.0 ** KBITS) / 2.0 ** KBITS
+
+
+def dy(rng, lo, hi, den=16):
+    """a dyadic rational k/den in [lo, hi]"""
+    return rng.randint(int(np.ceil(lo * den)), int(np.floor(hi * den))) / den
+
+
+def make_kernel(name, d, bs, rng):
+    k = gpytorch.kernels
+    bsz = torch.Size(bs)
+
+    def draw(lo, hi, shape=()):
+        return torch.tensor(np.array([rng.uniform(lo, hi) for _ in range(int(np.prod(bs + list(shape)) or 1))])
+                            .reshape(bs + list(shape))) if (bs or shape) else rng.uniform(lo, hi)
+
+    def ls():
+        return draw(0.5, 1.2, (1, 1)) if bs else rng.uniform(0.5, 1.2)
+    if name == "rbf":
+        m = k.RBFKernel(batch_shape=bsz); m.lengthscale = ls()
+    elif name == "matern25":
+        m = k.MaternKernel(nu=2.5, batch_shape=bsz); m.lengthscale = ls()
+    elif name == "scale_rbf":
+        m = k.ScaleKernel(k.RBFKernel(batch_shape=bsz), batch_shape=bsz)
+        m.base_kernel.lengthscale = ls(); m.outputscale = draw(0.5, 2.5)
+    else:
+        a = k.RBFKernel(batch_shape=bsz); a.lengthscale = ls()
+        b = k.LinearKernel(batch_shape=bsz); b.variance = draw(0.2, 1.0, (1, 1)) if bs else rng.uniform(0.2, 1.0)
+        m = a + b
+    return m
+
+
+def make_mean(name, d, bs, rng):
+    bsz = torch.Size(bs)
+    if name == "zero":
+        return gpytorch.means.ZeroMean(batch_shape=bsz)
+    if name == "constant":
+        m = gpytorch.means.ConstantMean(batch_shape=bsz)
+        m.constant.data.copy_(torch.tensor([dy(rng, -1.5, 1.5, 8) for _ in range(int(np.prod(bs)) if bs else 1)])
+                              .reshape(m.constant.shape))
+        return m
+    m = gpytorch.means.LinearMean(d, batch_shape=bsz)
+    m.weights.data.copy_(torch.tensor([dy(rng, -1, 1, 8) for _ in range(m.weights.numel())]).reshape(m.weights.shape))
+    m.bias.data.copy_(torch.tensor([dy(rng, -1, 1, 8) for _ in range(m.bias.numel())]).reshape(m.bias.shape))
+    return m
+
+
+def make_dist(name, m, bs):
+    cls = {"cholesky": V.CholeskyVariationalDistribution, "meanfield": V.MeanFieldVariationalDistribution,
+           "delta": V.DeltaVariationalDistribution, "natural": V.NaturalVariationalDistribution,
+           "trilnatural": V.TrilNaturalVariationalDistribution}[name]
+    return cls(m, batch_shape=torch.Size(bs))
+
+
+def rand_spd(m, rng):
+    """a well conditioned SPD matrix with dyadic entries: B B^T + D"""
+    a = np.array([[dy(rng, -0.5, 0.5, 8) for _ in range(m)] for _ in range(m)])
+    return a @ a.T + np.diag([dy(rng, 0.5, 1.25, 8) for _ in range(m)])
+
+
+def fill_dist(dist, name, m, bs, rng, mode="random"):
+    """set the raw parameters (dyadic values, exactly representable on both sides)"""
+    nb = int(np.prod(bs)) if bs else 1
+
+    def vec():
+        return [[dy(rng, -1, 1) for _ in range(m)] for _ in range(nb)]
+    with torch.no_grad():
+        if name == "cholesky":
+            L = []
+            for _ in range(nb):
+                a = [[dy(rng, -0.625, 0.625) for _ in range(m)] for _ in range(m)]   # upper part is garbage
+                for i in range(m):
+                    a[i][i] = dy(rng, 0.4, 1.3) * (-1 if rng.random() < 0.15 else 1)
+                L.append(a)
+            dist.variational_mean.copy_(torch.tensor(vec()).reshape(dist.variational_mean.shape))
+            dist.chol_variational_covar.copy_(torch.tensor(L).reshape(dist.chol_variational_covar.shape))
+        elif name == "meanfield":
+            s = [[dy(rng, 0.3, 1.5) * (-1 if rng.random() < 0.2 else 1) for _ in range(m)] for _ in range(nb)]
+            dist.variational_mean.copy_(torch.tensor(vec()).reshape(dist.variational_mean.shape))
+            dist._variational_stddev.copy_(torch.tensor(s).reshape(dist._variational_stddev.shape))
+        elif name == "delta":
+            dist.variational_mean.copy_(torch.tensor(vec()).reshape(dist.variational_mean.shape))
+        elif name == "natural":
+            P = [(-0.5 * rand_spd(m, rng)).tolist() for _ in range(nb)]
+            dist.natural_vec.copy_(torch.tensor(vec()).reshape(dist.natural_vec.shape))
+            dist.natural_mat.copy_(torch.tensor(P).reshape(dist.natural_mat.shape))
+        else:
+            T = []
+            for _ in range(nb):
+                # garbage above the diagonal with probability 1/2 (solve_triangular must ignore it)
+                junk = rng.random() < 0.5
+                a = [[dy(rng, -0.625, 0.625) if (j < i or junk) else 0.0 for j in range(m)] for i in range(m)]
+                for i in range(m):
+                    a[i][i] = dy(rng, 0.5, 1.5)
+                T.append(a)
+            dist.natural_vec.copy_(torch.tensor(vec()).reshape(dist.natural_vec.shape))
+            dist.natural_tril_mat.copy_(torch.tensor(T).reshape(dist.natural_tril_mat.shape))
+
+
+def set_dist_to(dist, name, mean, cov):
+    """make q(u) = N(mean, cov) (unbatched) through the raw parameters; used by the
+    prior-fixed-point family.  Returns False if the class cannot represent it."""
+    m = len(mean)
+    mean_t, cov_t = torch.tensor(mean), torch.tensor(cov)
+    with torch.no_grad():
+        if name == "cholesky":
+            dist.variational_mean.copy_(mean_t); dist.chol_variational_covar.copy_(torch.linalg.cholesky(cov_t))
+        elif name == "natural":
+            P = torch.linalg.inv(cov_t)
+            dist.natural_vec.copy_(P @ mean_t); dist.natural_mat.copy_(-0.5 * P)
+        elif name == "trilnatural":
+            Lc = torch.linalg.cholesky(cov_t)
+            T = torch.linalg.solve_triangular(Lc, torch.eye(m), upper=False)
+            dist.natural_vec.copy_(torch.linalg.solve(cov_t, mean_t)); dist.natural_tril_mat.copy_(T)
+        elif name == "meanfield":
+            if (cov_t - torch.diag(cov_t.diagonal())).abs().max() > 0:
+                return False
+            dist.variational_mean.copy_(mean_t); dist._variational_stddev.copy_(cov_t.diagonal().sqrt())
+        else:
+            return False
+    return True
+
+
+def dist_params(dist, name, bidx):
+    """raw parameters of batch element bidx as (p1 list, P2 list of lists)"""
+    def sel(t, ev):
+        t = t.detach()
+        lead = t.shape[:t.dim() - ev]
+        if len(lead) == 0:
+            return t
+        return t.reshape(-1, *t.shape[t.dim() - ev:])[bidx % int(np.prod(lead))]
+    m = dist.num_inducing_points
+    if name == "cholesky":
+        return sel(dist.variational_mean, 1).tolist(), sel(dist.chol_variational_covar, 2).tolist()
+    if name == "meanfield":
+        return sel(dist.variational_mean, 1).tolist(), [[v] for v in sel(dist._variational_stddev, 1).tolist()]
+    if name == "delta":
+        return sel(dist.variational_mean, 1).tolist(), [[0.0]]
+    if name == "natural":
+        return sel(dist.natural_vec, 1).tolist(), sel(dist.natural_mat, 2).tolist()
+    return sel(dist.natural_vec, 1).tolist(), sel(dist.natural_tril_mat, 2).tolist()
+
+
+def mark_initialized(strategy):
+    s = strategy
+    while s is not None:
+        v = getattr(s, "variational_params_initialized", None)
+        if isinstance(v, torch.Tensor):
+            v.fill_(1)
+        s = getattr(s, "base_variational_strategy", None)
+
+
+def points(rng, k, d, lo=-36, hi=36, sep=0.5):
+    for _ in range(500):
+        pts = [[rng.randint(lo, hi) / 8.0 for _ in range(d)] for _ in range(k)]
+        if all(max(abs(a - b) for a, b in zip(p, q)) >= sep for p, q in itertools.combinations(pts, 2)):
+            return pts
+    return pts
+
+
+for _n in ("DyadicKernel", "dy", "make_kernel", "make_mean", "make_dist", "rand_spd", "fill_dist", "set_dist_to", "dist_params", "mark_initialized", "points"):
+    setattr(_H, _n, staticmethod(globals()[_n]) if not isinstance(globals()[_n], type) else globals()[_n])
+_H.KIND, _H.MEANS, _H.JIT_DY = KIND, MEANS, JIT_DY
+D14 = _H
 mp.mp.dps = 40
 TOL = 1e-8
-JIT = D14.JIT_DY
+JIT = 2.0 ** -20
 STRATS = ["vs", "unwh"]
 DISTS = ["cholesky", "meanfield", "natural", "trilnatural", "delta"]
 KERNELS = ["rbf", "matern25", "scale_rbf", "rbf+linear"]
@@ -66,7 +262,7 @@ def gen_case(rng, tier, family):
     m = rng.choice([2, 2, 3, 3, 4] if not big else [2, 3, 3, 4, 4, 5])
     ntot = rng.randint(3, 6 if not big else 8)
     c = dict(family=family, strat=rng.choice(STRATS), dist=rng.choice(DISTS), m=m, ntot=ntot, d=rng.randint(1, 2),
-             kernel=rng.choice(KERNELS), mean=rng.choice(D14.MEANS), hseed=rng.randint(0, 10 ** 9), raw=False,
+             kernel=rng.choice(KERNELS), mean=rng.choice(MEANS), hseed=rng.randint(0, 10 ** 9), raw=False,
              lik=rng.choice(["gaussian", "gaussian", "gaussian", "fixed"]))
     if family == "objective":
         B = rng.randint(1, min(4, ntot))
